@@ -23,11 +23,11 @@ def run(ck):
                  'S_sub(DataBlocks::parse) in c08_file_composition: records TIME_SIZE, the header fields, the first block\'s address and the footer slice; returns Ok/Err nondeterministically (its own contract: c08_records_*)',
                  'S_sub(parse_footer) in c08_extension_flag_is_version3']
     ck.trusted += ['Kani 0.68 / CBMC 6.11', 'paper step: units = reference and composition = reference composition  =>  whole decoder = reference']
-    hs = [H(n, cap=c, required=r, meaning=m) for n, c, r, m in UNITS]
+    hs = [H(n, cap=c, required=r, meaning=m, playback=n in ('c08_header', 'c08_layout_v1_blocks', 'c08_layout_v2_blocks', 'c08_records_min_v1', 'c08_records_min_v2', 'c08_records_leap_indicators_v2')) for n, c, r, m in UNITS]
     kprop.run_harnesses(ck, hs)
     ck.functions += ['parse::tz_file::parse_header', 'read_data_blocks::<4>/<8>', 'DataBlocks::<4>/<8>::parse', 'parse_footer', 'parse_tz_file', 'parse::utils::{read_exact, read_chunk_exact}', 'LocalTimeType::new', 'TimeZone::new']
     ck.explanation = 'Whole-file harnesses do not finish (DESIGN.md C08); the decoder is verified as it is written: five units against an RFC 8536 reference typed in the harness, plus composition harnesses with abstracted callees.'
 
 
 def replay(ck, case):
-    return 1
+    return kprop.replay_playback(ck, case)
